@@ -41,8 +41,12 @@ pub fn valid_identifier_4<S: Source>(s: &mut S) {
 pub fn valid_identifier_6<S: Source>(s: &mut S) {
     valid_identifier::<S, 6>(s)
 }
+pub fn valid_identifier_8<S: Source>(s: &mut S) {
+    valid_identifier::<S, 8>(s)
+}
 proof!(#[kani::unwind(10)] c14_valid_identifier_4 => valid_identifier_4);
 proof!(#[kani::unwind(12)] c14_valid_identifier_6 => valid_identifier_6);
+proof!(#[kani::unwind(14)] c14_valid_identifier_8 => valid_identifier_8);
 
 /// H-ID-unicode: strings of up to 3 characters below U+0800 (one- and two-byte UTF-8): only
 /// ASCII letters, digits and `_` make a Lua name.
